@@ -9,7 +9,7 @@ import ast
 import itertools
 
 from ..absval import AbsRaise, ClassVal, Closure, Env, Interp, Native, Obj, Stub
-from ..astq import arg, ext_names, inside, is_name, loc, names_in, stmt_of
+from ..astq import arg, canon, ext_names, global_names, inside, is_name, loc, names_in, real_body, stmt_of
 from ..model import AnalysisError, Func, head, norm
 from . import engine as E
 from . import runrules as R
@@ -198,23 +198,26 @@ def check(ctx):
     # ---------------------------------------------------------------- B4
     br = rr.bound_run
     s_ = br.pos_params[0]
-    txt = [norm(x) for x in br.node.body]
-    ok = txt == [f"args = [arg.value for arg in {s_}.args]", f"kwargs = {{name: arg.value for name, arg in {s_}.kwargs.items()}}",
-                 f"{s_}.result.value = {br.pos_params[2]}({br.pos_params[1]})(*args, **kwargs)"]
+    keep = global_names(m, br)
+    txt = canon(real_body(br.node), keep)
+    ok = txt == canon([f"args = [arg.value for arg in {s_}.args]", f"kwargs = {{name: arg.value for name, arg in {s_}.kwargs.items()}}",
+                       f"{s_}.result.value = {br.pos_params[2]}({br.pos_params[1]})(*args, **kwargs)"], keep)
     ctx.ob("C02.B4", f"{br.short}/binding", ok, loc(br), "slots are read in order at call time and the result goes to the call's own slot" if ok else
            "BoundCall.run no longer reads the argument slots in order / stores into its own slot", " ; ".join(txt)[:160])
     cbc = [f for f in m.funcs.values() if f.name == "_create_bound_call"]
     if len(cbc) == 1:
         f = cbc[0]
-        t = [norm(x) for x in f.node.body]
-        ok = len(t) == 5 and t[0].startswith("args, kwargs = get_argument_nodes(") and t[1] == "args = [result_lookup[predecessor] for predecessor in args]" \
-            and t[2] == "kwargs = {name: result_lookup[predecessor] for name, predecessor in kwargs.items()}" and t[3] == "result = result_lookup[call]" \
-            and t[4] == "return BoundCall(args, kwargs, result)"
+        keep = global_names(m, f)
+        g_, c_, rl_ = f.pos_params[0], f.pos_params[1], f.pos_params[2]
+        t = canon(real_body(f.node), keep)
+        ok = t == canon([f"args, kwargs = get_argument_nodes({g_}, {c_})", f"args = [{rl_}[predecessor] for predecessor in args]",
+                         f"kwargs = {{name: {rl_}[predecessor] for name, predecessor in kwargs.items()}}", f"result = {rl_}[{c_}]",
+                         "return BoundCall(args, kwargs, result)"], keep)
         ctx.ob("C02.B4", f"{f.short}/element-wise", ok, loc(f), "the reader's lists are mapped through the slot table element-wise" if ok else
                "bound-call creation no longer maps the reader's lists element-wise through the slot table")
     bc = m.one_class("BoundCall", "B4")
     init = bc.methods["__init__"]
-    ok = [norm(x) for x in init.node.body] == ["self.args = args", "self.kwargs = kwargs", "self.result = result"] and init.pos_params[1:] == ["args", "kwargs", "result"]
+    ok = [norm(x) for x in real_body(init.node)] == ["self.args = args", "self.kwargs = kwargs", "self.result = result"] and init.pos_params[1:] == ["args", "kwargs", "result"]
     ctx.ob("C02.B4", "BoundCall.__init__/fields", ok, loc(init), "constructor argument order matches field assignment")
     from .extra import rule_result_slots, rule_kwargs_positional_only
     ctx.run(rule_result_slots, "C02.B4")
@@ -223,18 +226,29 @@ def check(ctx):
     run = rr.run
     rets = [n_ for n_ in run.own_nodes() if isinstance(n_, ast.Return) and n_.value is not None and isinstance(n_.value, ast.Call) and rr.run_physical in m.callee_funcs(run, n_.value)]
     ctx.ob("C02.B5", f"{run.short}/returns-execution-value", len(rets) == 1, loc(run), "run returns the value of run_physical" if len(rets) == 1 else "run does not return run_physical's value")
-    ob = [b for b in run.bindings.get("output_node", []) if b[0] == "assign"]
-    ok = len(ob) == 1 and norm(ob[0][1]) == "plan.gather(output) if output is not None else None"
+    ob = [e for nm, bs in run.bindings.items() for k, e, p_ in bs if k == "assign" and e is not None and ".gather(" in norm(e)]
+    ok = len(ob) == 1 and norm(ob[0]) == "plan.gather(output) if output is not None else None"
     ctx.ob("C02.B5", f"{run.short}/gathers-output", ok, loc(run), "the output spec is gathered (None means no output)" if ok else "the output spec is not gathered as `plan.gather(output) if output is not None else None`")
     rp = rr.run_physical
     rets = [n_ for n_ in rp.own_nodes() if isinstance(n_, ast.Return) and n_.value is not None]
-    ok = len(rets) == 1 and norm(rets[0].value) == "output_slot.value if output_slot else None"
+    ok = len(rets) == 1 and canon([rets[0].value], global_names(m, rp)) == canon(["output_slot.value if output_slot else None"], global_names(m, rp))
+    if ok:
+        # that variable is the second element returned by the preparation step
+        v_ = rets[0].value.test.id if isinstance(rets[0].value, ast.IfExp) and isinstance(rets[0].value.test, ast.Name) else None
+        b_ = [b for b in rp.bindings.get(v_, []) if b[0] == "assign"] if v_ else []
+        ok = len(b_) == 1 and b_[0][2] == (1,) and isinstance(b_[0][1], ast.Call) and rr.prep_run in m.callee_funcs(rp, b_[0][1])
     ctx.ob("C02.B5", f"{rp.short}/returns-slot-value", ok, loc(rp), "returns the output slot's value" if ok else "run_physical does not return the output slot's value")
     mk = [f for f in m.funcs.values() if f.name == "_create_bound_call_lookup_and_output_slot"]
     if len(mk) == 1:
         f = mk[0]
-        ob = [b for b in f.bindings.get("output_slot", []) if b[0] == "assign"]
-        ok = len(ob) == 1 and norm(ob[0][1]) == "result_lookup[output_node] if output_node else None"
+        onp = [p for p in f.params if "output" in p]
+        keep = global_names(m, f)
+        ob = [e for nm, bs in f.bindings.items() for k, e, p_ in bs if k == "assign" and isinstance(e, ast.IfExp) and onp and onp[0] in names_in(e)]
+        ok = len(ob) == 1 and bool(onp) and canon([ob[0]], keep) == canon([f"result_lookup[{onp[0]}] if {onp[0]} else None"], keep)
+        if ok:
+            # the subscripted table is the per-run slot table
+            tb = ob[0].body.value.id if isinstance(ob[0].body, ast.Subscript) and isinstance(ob[0].body.value, ast.Name) else None
+            ok = tb is not None and any(k == "assign" and isinstance(e, ast.DictComp) and "Slot(" in norm(e.value) for k, e, p_ in f.bindings.get(tb, []))
         ctx.ob("C02.B5", f"{f.short}/output-slot", ok, loc(f), "output slot = slot-table entry of the output node (a literal is its own slot)" if ok else "output slot is not the slot-table entry of the output node")
     pc = R.calls_to(m, rp, rr.prep_run)
     ok = len(pc) == 1 and is_name(arg(pc[0], None, "output_node"), "output_node")
